@@ -3,6 +3,7 @@ package props
 import (
 	"fmt"
 	"math/big"
+	"time"
 
 	clptypes "github.com/Sifchain/sifnode/x/clp/types"
 	sdk "github.com/cosmos/cosmos-sdk/types"
@@ -80,6 +81,7 @@ type Step struct {
 	Msg      Msg
 	Fee      *big.Int
 	OK       bool // tx: code 0 ; hooks: did not panic
+	Epoch    bool // BeginBlock: the rewards epoch ended in this block
 	Pre      env.ClpState
 	Post     env.ClpState
 	Log      string
@@ -97,6 +99,9 @@ func (s Step) Enc() string {
 		s.Msg.enc(e)
 		e.Z(s.Fee)
 	}
+	if s.Kind == 3 {
+		e.B(s.Epoch)
+	}
 	e.B(s.OK).Clp(s.Pre).Clp(s.Post)
 	return e.Coq()
 }
@@ -111,6 +116,7 @@ func (s Step) JSON() map[string]interface{} {
 		out["hook"] = "EndBlock"
 	case 3:
 		out["hook"] = "BeginBlock"
+		out["rewards_epoch_ended"] = s.Epoch
 	}
 	return out
 }
@@ -132,6 +138,7 @@ type HistOpts struct {
 	MaxExp    int         // amount magnitude
 	BlockEach int         // a block boundary every n messages (0 = 3)
 	LockChanges bool      // the admin changes lock / cancel periods in the middle of histories
+	Epochs      bool      // rewards-bucket epochs: hour epoch, 25-minute blocks
 }
 
 type History struct {
@@ -183,13 +190,19 @@ func RunClpHistories(c Ctx, rep *report.Report, rng *chain.Rng, o HistOpts, next
 		hist := History{ID: h, Env: e, Desc: desc}
 		e.BeginBlock()
 		// policy set-up through the real admin messages
+		epochID, rewardsLock, wallet := "", uint64(0), false
+		if o.Epochs && rng.Intn(4) != 0 {
+			e.BlockStep = 25 * time.Minute
+			epochID, rewardsLock, wallet = "hour", uint64(rng.Intn(4)), rng.Intn(2) == 0
+			desc["rewards_epoch"], desc["rewards_lock"], desc["rewards_to_wallet"] = epochID, rewardsLock, wallet
+		}
 		if o.Locks && rng.Intn(3) != 0 {
 			lock := []uint64{0, 1, 2, 5, 50}[rng.Intn(5)]
 			cancel := []uint64{0, 1, 2, 5, 50}[rng.Intn(5)]
-			mustOK(e.UpdateRewardsParams(lock, cancel, 0, "", false), "rewards params")
+			mustOK(e.UpdateRewardsParams(lock, cancel, rewardsLock, epochID, wallet), "rewards params")
 			desc["lock"], desc["cancel"] = lock, cancel
 		} else {
-			mustOK(e.UpdateRewardsParams(0, 0, 0, "", false), "rewards params")
+			mustOK(e.UpdateRewardsParams(0, 0, rewardsLock, epochID, wallet), "rewards params")
 		}
 		if o.Fees && rng.Intn(2) == 0 {
 			m := clptypes.MsgUpdateSwapFeeParamsRequest{Signer: e.Admin.Addr.String(), DefaultSwapFeeRate: dec(RandRate(rng))}
@@ -224,7 +237,8 @@ func RunClpHistories(c Ctx, rep *report.Report, rng *chain.Rng, o HistOpts, next
 			if o.LockChanges && rng.Intn(8) == 0 {
 				lock := []uint64{0, 1, 2, 5, 50}[rng.Intn(5)]
 				cancel := []uint64{0, 1, 2, 5, 50}[rng.Intn(5)]
-				mustOK(e.UpdateRewardsParams(lock, cancel, 0, "", false), "rewards params")
+				cur := e.App.ClpKeeper.GetRewardsParams(e.Ctx())
+				mustOK(e.UpdateRewardsParams(lock, cancel, cur.RewardsLockPeriod, cur.RewardsEpochIdentifier, cur.RewardsDistribute), "rewards params")
 				rep.Count("admin.lock-change")
 			}
 			m, sm, signer := genClpMsg(rng, e, toks, o)
@@ -255,11 +269,16 @@ func RunClpHistories(c Ctx, rep *report.Report, rng *chain.Rng, o HistOpts, next
 				}
 				e.Commit()
 				pre = e.Snapshot()
+				ep0 := epochNo(e, pre.Params.EpochID)
 				panicked = e.BeginBlock()
 				post = e.Snapshot()
 				pre.Height = post.Height
 				*nextID++
-				hist.Steps = append(hist.Steps, Step{ID: *nextID, Kind: 3, OK: !panicked, Pre: pre, Post: post, HistID: h, StepNo: st, EnvRef: e})
+				fired := epochNo(e, pre.Params.EpochID) != ep0 || (panicked && pre.Params.EpochID != "")
+				if fired {
+					rep.Count("hook.BeginBlock.rewards-epoch")
+				}
+				hist.Steps = append(hist.Steps, Step{ID: *nextID, Kind: 3, OK: !panicked, Epoch: fired, Pre: pre, Post: post, HistID: h, StepNo: st, EnvRef: e})
 				rep.Count("hook.BeginBlock")
 				if panicked {
 					rep.Count("hook.BeginBlock.panic")
@@ -507,11 +526,13 @@ func recBlock(h *History, nextID *int, stepNo int) {
 	h.Steps = append(h.Steps, Step{ID: *nextID, Kind: 2, OK: !panicked, Pre: pre, Post: post, HistID: h.ID, StepNo: stepNo, EnvRef: e})
 	e.Commit()
 	pre = e.Snapshot()
+	ep0 := epochNo(e, pre.Params.EpochID)
 	panicked = e.BeginBlock()
 	post = e.Snapshot()
 	pre.Height = post.Height
 	*nextID++
-	h.Steps = append(h.Steps, Step{ID: *nextID, Kind: 3, OK: !panicked, Pre: pre, Post: post, HistID: h.ID, StepNo: stepNo, EnvRef: e})
+	fired := epochNo(e, pre.Params.EpochID) != ep0 || (panicked && pre.Params.EpochID != "")
+	h.Steps = append(h.Steps, Step{ID: *nextID, Kind: 3, OK: !panicked, Epoch: fired, Pre: pre, Post: post, HistID: h.ID, StepNo: stepNo, EnvRef: e})
 }
 
 // ScriptF14: corpus history reproducing finding F-14 (add into a pool whose native side LPPD emptied).
@@ -571,6 +592,47 @@ func ScriptDust(rng *chain.Rng, hid int, nextID *int) History {
 			m := clptypes.NewMsgRemoveLiquidity(u.Addr, asset, sdk.NewInt(1), sdk.NewInt(0))
 			recTx(&h, nextID, 3+i, u, Msg{Tag: 3, Signer: id(u), A: tid, X: big.NewInt(1), Y: big.NewInt(0)}, &m)
 		}
+	}
+	return h
+}
+
+// epochNo returns the current epoch number of the identified epoch (-1 if there is none).
+func epochNo(e *env.Env, id string) int64 {
+	if id == "" {
+		return -1
+	}
+	info, found := e.App.EpochsKeeper.GetEpochInfo(e.Ctx(), id)
+	if !found {
+		return -1
+	}
+	return info.CurrentEpoch
+}
+
+// ScriptF2: corpus history for finding F-2 — rewards bucket paid to wallets; provider units 1:1:4 and a
+// bucket of 6e18: each 18-digit share rounds up, the three payouts total 6e18+6.
+func ScriptF2(nextID *int) History {
+	e := env.New(env.Opts{NUsers: 4, Tokens: []string{"ceth"}})
+	h := History{ID: 9002, Env: e, Desc: map[string]interface{}{"corpus": "F-2", "tokens": []string{"ceth"}, "rewards_to_wallet": true, "units": "1:1:4", "bucket": "6e18"}}
+	e.BlockStep = 25 * time.Minute
+	e.BeginBlock()
+	mustOK(e.UpdateRewardsParams(0, 0, 0, "hour", true), "rewards params")
+	tid := e.DenomID["ceth"]
+	asset := clptypes.NewAsset("ceth")
+	id := func(a chain.Account) int64 { return e.AcctID[a.Addr.String()] }
+	n := new(big.Int).Mul(big.NewInt(1000), chain.E(18))
+	m1 := clptypes.NewMsgCreatePool(e.Users[0].Addr, asset, env.U(n), env.U(n))
+	recTx(&h, nextID, 0, e.Users[0], Msg{Tag: 1, Signer: id(e.Users[0]), A: tid, X: n, Y: n}, &m1)
+	m2 := clptypes.NewMsgAddLiquidity(e.Users[1].Addr, asset, env.U(n), env.U(n))
+	recTx(&h, nextID, 1, e.Users[1], Msg{Tag: 2, Signer: id(e.Users[1]), A: tid, X: n, Y: n}, &m2)
+	n4 := new(big.Int).Mul(big.NewInt(4000), chain.E(18))
+	m3 := clptypes.NewMsgAddLiquidity(e.Users[2].Addr, asset, env.U(n4), env.U(n4))
+	recTx(&h, nextID, 2, e.Users[2], Msg{Tag: 2, Signer: id(e.Users[2]), A: tid, X: n4, Y: n4}, &m3)
+	six := new(big.Int).Mul(big.NewInt(6), chain.E(18))
+	coins := sdk.NewCoins(sdk.NewCoin("ceth", sdk.NewIntFromBigInt(six)))
+	m4 := clptypes.NewMsgAddLiquidityToRewardsBucketRequest(e.Users[3].Addr.String(), coins)
+	recTx(&h, nextID, 3, e.Users[3], Msg{Tag: 9, Signer: id(e.Users[3]), Coins: [][2]*big.Int{{big.NewInt(tid), six}}}, m4)
+	for i := 0; i < 4; i++ {
+		recBlock(&h, nextID, 4+i)
 	}
 	return h
 }
